@@ -359,7 +359,7 @@ pub fn run(tier: Tier) -> i32 {
     ctx.assume("user-defined Argument renderers only append bytes to the buffer they are handed");
 
     // names
-    let mut names = strings_over(NAME_SIGMA, tier.pick(3, 4));
+    let mut names = strings_over(NAME_SIGMA, tier.pick(4, 5));
     names.extend(keyword_neighbours());
     let acc_names = names
         .par_chunks(1024)
@@ -373,7 +373,7 @@ pub fn run(tier: Tier) -> i32 {
         .reduce(Acc::default, Acc::merge);
 
     // arguments
-    let strs = strings_over(SIGMA, tier.pick(3, 4));
+    let strs = strings_over(SIGMA, tier.pick(4, 5));
     let mut vals: Vec<ArgVal> = Vec::new();
     for s in &strs {
         vals.push(ArgVal::Str(s.clone()));
@@ -392,7 +392,7 @@ pub fn run(tier: Tier) -> i32 {
     for (s, n) in [(0u64, 0u32), (0, 1), (0, 499_999), (0, 500_000), (0, 999_999_999), (1, 0), (2, 345_000_000), (1 << 31, 0), (u64::MAX, 999_999_999)] {
         vals.push(ArgVal::Dur(s, n));
     }
-    for b in bytes_over(&[b'a', b'\n', b'\r', 0xff, b' ', b'"'], tier.pick(3, 4)) {
+    for b in bytes_over(&[b'a', b'\n', b'\r', 0xff, b' ', b'"'], tier.pick(4, 6)) {
         vals.push(ArgVal::Raw(b));
     }
     let acc_args = vals
@@ -409,7 +409,7 @@ pub fn run(tier: Tier) -> i32 {
         .reduce(Acc::default, Acc::merge);
 
     // sequences of add_argument calls
-    let depth = tier.pick(4, 5);
+    let depth = tier.pick(5, 6);
     let mut seqs: Vec<Vec<usize>> = vec![vec![]];
     let mut layer: Vec<Vec<usize>> = vec![vec![]];
     for _ in 0..depth {
@@ -444,10 +444,10 @@ pub fn run(tier: Tier) -> i32 {
     cov.distinct_nontrivial = acc.nontrivial;
     cov.rule = format!(
         "names: every string of length <= {} over 14 class representatives plus every string within edit distance 1 of / prefix / extension of the three list keywords ({} names); arguments: every string of length <= {} over 12 classes through &str/String/Cow, integer/bool/Duration values, user-defined renderers for every byte string of length <= {} over {{a, LF, CR, 0xFF, space, quote}} ({} values x 2 base commands); sequences: every sequence of <= {} add_argument calls over a menu of 4 accepted and 4 rejected values ({} sequences); non-trivial = invalid names, values containing LF or rendered by a user-defined renderer, sequences containing a rejected call",
-        tier.pick(3, 4),
+        tier.pick(4, 5),
         names.len(),
-        tier.pick(3, 4),
-        tier.pick(3, 4),
+        tier.pick(4, 5),
+        tier.pick(4, 6),
         vals.len(),
         depth,
         seqs.len()
